@@ -485,6 +485,15 @@ def _exec_c10(sc, ctx, env):
             return {"": env.contents[sorted(t.values())[0]]}
         return {rel: env.contents[ci] for rel, ci in t.items()}
 
+    nsaved = [0]
+    if env.state is not None:
+        real_set_link = env.state.set_link
+
+        def counting_set_link(*a, **kw):
+            nsaved[0] += 1
+            return real_set_link(*a, **kw)
+
+        env.state.set_link = counting_set_link
     env.odb.cache_types = [cfg["l0"]]
     checkout(path, env.w.localfs, obj_for(sc["prior"]), env.odb, force=True, state=env.state)
     if not single:
@@ -512,6 +521,7 @@ def _exec_c10(sc, ctx, env):
     ctx.clock.advance(10**9)
     want = want_for(sc["target"])
     disc = f"{cfg['l0']}->{cfg['l1']}"
+    n_before = nsaved[0]
     try:
         checkout(path, env.w.localfs, obj_for(sc["target"]), env.odb, force=True, state=env.state)
     except Exception as exc:  # noqa: BLE001
@@ -526,7 +536,7 @@ def _exec_c10(sc, ctx, env):
             f"missing={sorted(set(want) - set(got))} extra={sorted(set(got) - set(want))} "
             f"wrong={[r for r in want if r in got and got[r] != want[r]]}",
         )
-    _check_record(ctx, env, path, "first", disc)
+    _check_record(ctx, env, path, "first", disc, saved=nsaved[0] > n_before)
     # second call: nothing to do, no workspace mutation
     n0 = len(seam.events)
     ctx.clock.advance(10**9)
@@ -542,6 +552,7 @@ def _exec_c10(sc, ctx, env):
         ctx.violate("second-checkout-mutated-workspace", disc, f"{[(e[2], e[3], e[4]) for e in muts[:4]]}")
     # relink
     ctx.clock.advance(10**9)
+    n_before = nsaved[0]
     try:
         checkout(path, env.w.localfs, obj_for(sc["target"]), env.odb, force=True, relink=True, state=env.state)
     except Exception as exc:  # noqa: BLE001
@@ -569,7 +580,7 @@ def _exec_c10(sc, ctx, env):
         elif l1 == "symlink":
             if not stat.S_ISLNK(lst.st_mode) or os.readlink(fp) != cpath:
                 ctx.violate("relink-wrong-type", f"want-symlink:{disc}", f"{rel}: {os.readlink(fp) if stat.S_ISLNK(lst.st_mode) else 'not a symlink'}")
-    _check_record(ctx, env, path, "relink", disc)
+    _check_record(ctx, env, path, "relink", disc, saved=nsaved[0] > n_before)
     cache1 = env.cache_objs()
     changed = sorted(o for o in cache0 if cache1.get(o) != cache0[o])
     if changed:
@@ -582,8 +593,12 @@ def _exec_c10(sc, ctx, env):
     ctx.probe(f"links_{cfg['l0']}_to_{cfg['l1']}")
 
 
-def _check_record(ctx, env, path, when, disc):
+def _check_record(ctx, env, path, when, disc, saved=True):
     if env.state is None:
+        return
+    if not saved:
+        # this call had nothing to do and saved no record: an older record may
+        # legitimately predate later user changes (C05's business, not C10's)
         return
     rel = os.path.relpath(path, env.wsroot)
     try:
